@@ -50,6 +50,11 @@ class Prop(PropBase):
             nops = rng.choice([2, 3, 5, 8, 13, 21, 34, 60]) if tier == "quick" else rng.choice([3, 8, 21, 60, 150, 400])
             line = tg.history(rng, nops, sized=True, ops_weights=DUP_WEIGHTS)
             cs.append(Case(line, tag="history", cfgs=tg.configs(rng, 2)))
+        # correspondence only: moves to positions OUTSIDE the declared size (also repeated), where the oracle stops judging
+        for i in range(500 if tier == "quick" else 6000):
+            cs.append(Case(tg.history(rng, rng.choice([2, 4, 8, 20]), sized=True, wild=True,
+                                      ops_weights={"mv": 45, "we": 15, "ws": 5, "sv": 8, "rs": 8, "sz": 6, "er": 3, "dup": 10}),
+                           tag="history-out-of-range-moves", oracle=False))
         shc = ["%d %d %d %d 7 4" % (wv, e, r, z) for wv in range(3) for e in range(3) for r in range(6) for z in range(4)]
         for line, cf in tg.short_histories(3 if tier == "quick" else 4, shc):
             cs.append(Case(line, sweep="short-histories", cfgs=cf))
